@@ -317,9 +317,11 @@ func init() {
 	register(&Property{
 		ID: "C19",
 		Explanation: "Decides structural necessary conditions of 'error recovery is safe' on the generated recoverFromError/skipBrokenCode/parse of tm and js (hand-written sibling): VARIANT: every back edge of the recovery search loop follows the removal of the current token from the finite recovery set and is guarded by an end-of-input return; the skip loop fetches a token per iteration; parse resets the error-suppression counter when it is parser state. " +
-			"CODEC(parser): packed-table reads made while simulating reductions (reduceAll, gotoState) are bounds-guarded. Not decided: monotonic offsets, transparency on valid input.",
-		Rules: []string{"VARIANT", "CODEC(parser)"},
+			"CODEC(parser): packed-table reads made while simulating reductions (reduceAll, gotoState) are bounds-guarded. Not decided: monotonic offsets, transparency on valid input. TYPESTATE(recoveryMode): in js's hand-written parse loop stream.recoveryMode is true on every path to recoverFromError (constant propagation over the CFG). RESET(histogram): the default-reduction histogram of Optimize is zeroed over exactly the range that is read back.",
+		Rules: []string{"TYPESTATE(recoveryMode)", "RESET(histogram)", "VARIANT", "CODEC(parser)"},
 		Run: func(c *Ctx) {
+			ruleRECMODE(c)
+			ruleRESET(c, "lalr")
 			ruleRECOVERY(c)
 			ruleTABLEIDX(c)
 		},
@@ -327,9 +329,10 @@ func init() {
 	register(&Property{
 		ID: "C20",
 		Explanation: "Decides structural necessary conditions of 'parse events form a well-nested tree': VARIANT(flush-after-extend): in recoverFromError the error node is flushed only after its range was extended over pending invalid tokens (otherwise tokens inside the node are reported after it). VARIANT(trim-trailing-empty): every parse loop that trims trailing empty symbols does so in a loop (all of them), so a node never runs into following whitespace/comments that are still pending. " +
-			"STACKIDX: reported ranges are non-empty sub-ranges of the rule. Not decided: the tree builder, nesting under recovery in general.",
-		Rules: []string{"VARIANT", "STACKIDX"},
+			"STACKIDX: reported ranges are non-empty sub-ranges of the rule. Not decided: the tree builder, nesting under recovery in general. INITCOV: every field of Lexer/Parser/TokenStream that another method modifies is assigned on every path by Init (or by the first block of parse()), so no run state of an earlier input (pending tokens of a cancelled parse) reaches the next input's event stream; four audited exemptions.",
+		Rules: []string{"INITCOV", "VARIANT", "STACKIDX"},
 		Run: func(c *Ctx) {
+			ruleINITCOV(c, "TokenStream", "Lexer", "Parser")
 			ruleRECOVERY(c)
 			ruleSTACKIDX(c)
 		},
